@@ -65,7 +65,7 @@ def convex_subset(rng: random.Random, nodes: list[dict]) -> list[int]:
 
 
 def gen_case(rng: random.Random, tier: str) -> dict:
-    g = gen.gen_dag(rng, max_nodes=8, p_edge_default=0.08)
+    g = gen.gen_dag(rng, max_nodes=10 if tier == "thorough" else 8, p_edge_default=0.08)
     inp = gen.gen_inputs(rng, g)
     cuts = []
     nodes = g["nodes"]
